@@ -88,13 +88,15 @@ Record f0_facts : Prop := {
   f0_basic : forall fd, In fd (fl_design fb) -> ff_window fd = None /\ ff_complex fd = false;
   f0_unit : forall f lv, In f c -> In lv (levels_of fb f) -> lv_weight lv = 1;
   f0_constraints : forall k, In k (fl_constraints fb) ->
-                   match k with FCross | FConsistency | FMinimumTrials _ | FDerivation _ _ _ => True | _ => False end
+                   match k with FCross | FConsistency | FMinimumTrials _ | FDerivation _ _ _ => True | _ => False end;
+  f0_nonempty : forall f, f < n -> 0 < nlevels fb f
 }.
 
 Lemma f0_unpack : f0_facts.
 Proof.
   unfold frag0 in HF.
-  apply andb_prop in HF. destruct HF as [HF1 Hsize].
+  apply andb_prop in HF. destruct HF as [HF0 Hne].
+  apply andb_prop in HF0. destruct HF0 as [HF1 Hsize].
   apply andb_prop in HF1. destruct HF1 as [HF2 Hgeo].
   apply andb_prop in HF2. destruct HF2 as [HF3 Hunit].
   apply andb_prop in HF3. destruct HF3 as [HF4 Hbasic].
@@ -125,6 +127,27 @@ Proof.
     specialize (Hlv f Hf). rewrite forallb_forall in Hlv. apply Nat.eqb_eq. apply Hlv. exact Hlvin.
   - intros k Hk. unfold no_rejecting_constraints in Hcons. rewrite forallb_forall in Hcons.
     specialize (Hcons k Hk). destruct k; try discriminate; exact I.
+  - intros f Hf. unfold nonempty_levels in Hne. rewrite forallb_forall in Hne.
+    unfold nlevels, factor_at. destruct (nth_error (fl_design fb) f) as [fd|] eqn:E.
+    + apply Nat.ltb_lt. apply Hne. eapply nth_error_In. exact E.
+    + apply nth_error_None in E. lia.
+Qed.
+
+Lemma product_nonempty {A} (lss : list (list A)) : (forall l, In l lss -> l <> []) -> product lss <> [].
+Proof.
+  induction lss as [|l t IH]; intros H; cbn [product]; [discriminate|].
+  assert (Hl : l <> []) by (apply H; left; reflexivity).
+  assert (Ht : product t <> []) by (apply IH; intros l' Hl'; apply H; right; exact Hl').
+  destruct l as [|x l']; [contradiction|]. cbn [flat_map]. destruct (product t); [contradiction|]. discriminate.
+Qed.
+
+Lemma f0_q_pos : 0 < f0_q.
+Proof.
+  unfold f0_q. assert (H : product (map (all_levels fb) c) <> []).
+  { apply product_nonempty. intros l Hl. apply in_map_iff in Hl. destruct Hl as [f [E Hf]]. subst l.
+    unfold all_levels. pose proof (f0_nonempty f0_unpack f (f0_range f0_unpack f Hf)) as Hp.
+    destruct (nlevels fb f); [lia | discriminate]. }
+  destruct (product (map (all_levels fb) c)); [contradiction | cbn; lia].
 Qed.
 
 Lemma f0_window_none f : window_of fb f = None.
